@@ -37,6 +37,12 @@ Definition lossy (f : string) : bool :=
      "ExtractSecond"; "ExtractDow"; "ExtractWeek"; "Date"; "IsNull"; "IsBool"; "Not2"].
 
 (* injective over the reals but not on floats (rounding, underflow): known finding *)
+(* the functions that keep distinct values distinct on their domain, the only ones a unique flag may be carried through:
+   sign change, negation, the increasing real functions (up to float rounding: [rounding] below), a collision-free digest,
+   the decimal / hexadecimal writings.  Trimming, case folding, substrings, casts to narrower types merge values. *)
+Definition value_preserving (f : string) : bool :=
+  existsb (String.eqb f) ["Opposite"; "Not"; "Exp"; "Ln"; "Log"; "Sqrt"; "Md5"; "CastAsText"; "Unhex"].
+
 (* the functions SQL evaluates anew for each row: a column computed by one of them alone holds distinct values (up to
    collisions of the generator); the clock functions CURRENT_DATE / CURRENT_TIME / CURRENT_TIMESTAMP and the constant PI
    are evaluated once per statement and repeat their value on every row *)
